@@ -186,6 +186,16 @@ def main():
     if want("emit"):
         status["Emit"] = run_c2coq(a.repo, a.out, "Emit", src="internal/debug.c",
                                    funcs=["emit_init", "emit_c"], fuel={"emit_c": 8})
+    if want("sites"):
+        import sites as sites_mod
+        try:
+            allsites, errs = sites_mod.extract_all(a.repo, os.path.dirname(HERE))
+            dropped = sites_mod.emit(allsites, errs, os.path.join(a.out, "Sites.v"))
+            status["Sites"] = {"ok": not errs, "errors": errs, "n_sites": sum(len(v) for v in allsites.values()),
+                               "dropped_guard_conjuncts": dropped}
+        except Exception as e:
+            open(os.path.join(a.out, "Sites.v"), "w").write("(* GENERATED: site extraction failed: %r *)\n" % (e,))
+            status["Sites"] = {"ok": False, "errors": ["site extraction crashed: %r" % (e,)]}
     # template instantiation: proofs that are stated once and checked against both builds
     tdir = os.path.join(os.path.dirname(HERE), "coq", "templates")
     if os.path.isdir(tdir):
